@@ -201,6 +201,53 @@ def _guards_exit(fi: FunctionInfo, node: ast.AST) -> bool:
     return ok
 
 
+def _state_envelope(ctx: Ctx) -> None:
+    """Until the method name is sealed into the token (recorded finding), the only thing that stops a union-state
+    method's tokens at a single-state method's endpoint is that the tagged envelope is *not* unwrapped there (the
+    payload then fails to deserialise).  `_resolve_state_cls` is executed abstractly for the four
+    (declared single / union) x (tagged / untagged payload) cases."""
+    import struct
+
+    from ..util import MiniRaised, mini_exec
+
+    rs = ctx.fn("vgi_rpc/http/server/_state_token.py:_resolve_state_cls")
+    marker = ctx.repo.const("vgi_rpc/http/server/_state_token.py:_UNION_STATE_MARKER")
+    mv = marker.value if isinstance(marker, ast.Constant) else None
+    if not isinstance(mv, bytes) or len(mv) != 1:
+        raise AnalysisError("anchor=_UNION_STATE_MARKER (one-byte constant)")
+    ps = params_of(rs)
+    if len(ps) < 2:
+        raise AnalysisError("anchor=parameters of _resolve_state_cls")
+    funcs = {"isinstance": isinstance, "len": len, "struct.unpack": struct.unpack}
+    other = bytes([mv[0] ^ 0xFF])
+
+    def go(si: object, data: bytes) -> object:
+        try:
+            return mini_exec(rs.node, {ps[0]: data, ps[1]: si, "tuple": tuple, "_UNION_STATE_MARKER": mv, "struct": None}, funcs)
+        except MiniRaised as e:
+            return ("raised", e.args[0])
+
+    tagged0 = mv + struct.pack("<H", 0) + b"PAYLOAD"
+    tagged1 = mv + struct.pack("<H", 1) + b"PAYLOAD"
+    plain = other + b"PAYLOAD"
+    r_single_plain = go("S", plain)
+    r_single_tagged = go("S", tagged0)
+    r_union_tagged = go(("S1", "S2"), tagged1)
+    r_union_plain = go(("S1", "S2"), plain)
+    r_union_big = go(("S1", "S2"), mv + struct.pack("<H", 7) + b"PAYLOAD")
+    ctx.check(r_single_plain == ("S", plain) and r_union_tagged == ("S2", b"PAYLOAD"), "RF-ABS", "state-envelope:own-tokens-resolve", rs, None,
+              ok="a single-state method resolves its bare payload, a union-state method resolves the tagged member",
+              bad=f"own tokens do not resolve: single/bare -> {r_single_plain!r}, union/tag 1 -> {r_union_tagged!r}")
+    unwrapped = isinstance(r_single_tagged, tuple) and len(r_single_tagged) == 2 and r_single_tagged[1] == b"PAYLOAD"
+    ctx.check(not unwrapped, "RF-ABS", "state-envelope:single-state-method-does-not-unwrap-union-token", rs, None,
+              ok=f"a tagged (union) payload presented to a single-state method is not unwrapped ({r_single_tagged!r}): the foreign token fails to deserialise",
+              bad=f"a tagged (union) payload presented to a single-state method is unwrapped to {r_single_tagged!r}: a union-state method's cursor is accepted at the endpoint of any method "
+              "declaring one of its member classes, which then processes state its own init never produced")
+    ctx.check(isinstance(r_union_plain, tuple) and r_union_plain[0] == "raised" and isinstance(r_union_big, tuple) and r_union_big[0] == "raised", "RF-ABS", "state-envelope:union-method-refuses-untagged-or-unknown-tag", rs, None,
+              ok="an untagged payload or an out-of-range tag at a union-state method is refused",
+              bad=f"a union-state method accepts an untagged payload ({r_union_plain!r}) or an unknown tag ({r_union_big!r})")
+
+
 def run(ctx: Ctx) -> None:
     ctx.explanation = META["text"]
     ctx.not_decided = "that the bound method name is framed unambiguously inside the AAD/payload (covered for identity fields by C12); behaviour for methods whose state types cannot be resolved."
@@ -208,6 +255,7 @@ def run(ctx: Ctx) -> None:
         "hashlib / hmac digests and str.encode() are treated as injective",
         "the only stream-token mint/open sites are in http/server/_app_stream.py and _state_token.py (checked: call-site minimums)",
     ]
+    _state_envelope(ctx)
     init = ctx.fn(HTTP_INIT)
     exch = ctx.fn(HTTP_EXCHANGE)
     rec = ctx.fn(RECOVER)
